@@ -118,7 +118,7 @@ template <class Pick> inline std::string sample(const Pattern &p, Pick pick, boo
       case Atom::ENUM: {
         unsigned v = at.n ? (unsigned)pick((int)std::min<unsigned>(at.n, 1000000)) : 0;
         std::string d = std::to_string(v);
-        if (leading_zeros) d = std::string((size_t)pick(4), '0') + d;
+        if (leading_zeros) { size_t room = d.size() < 9 ? 9 - d.size() : 0; d = std::string((size_t)pick((int)room + 1), '0') + d; }   // up to 9 digits in total
         a += d;
         break;
       }
